@@ -185,8 +185,12 @@ def same_value(a, b, fn=None):
     With fn, named temporaries are written out first (`amount` == `static_cast<int>(n)` after
     `const int amount = static_cast<int>(n);`)."""
     if fn is not None:
+        if same_value(a, b):
+            return True
         a, b = fn.expand_expr(a), fn.expand_expr(b)
     a, b = strip_casts(strip_move(a)), strip_casts(strip_move(b))
+    if isinstance(a, dict) and isinstance(b, dict) and a.get("sid") is not None and a.get("sid") == b.get("sid"):
+        return True     # the very same evaluation
     if not isinstance(a, dict) or not isinstance(b, dict):
         return False
     ca, cb = const_val(a), const_val(b)
